@@ -220,6 +220,11 @@ def check_state(st, bd, out, only=None):
         if idx % 7 == 0:
             forms.append(('list', [int(i) for i in S]))
             forms.append(('int64-unsorted', np.array(S[::-1], dtype=np.int64)))
+            if len(S) >= 1:
+                # the same SET named with repeated indices (e.g. cells collected from a facet-to-cell table)
+                rep = list(S) + [S[0]] + list(S[::-1])
+                forms.append(('array-repeated', np.array(rep, dtype=np.int32)))
+                forms.append(('list-repeated', [int(i) for i in rep]))
         for fname, arg in forms:
             out.ev()
             out.transitions += 1
@@ -255,7 +260,8 @@ def check_state(st, bd, out, only=None):
                     signal.alarm(max(1, remaining))
             if (m0.p.tobytes(), m0.t.tobytes(), repr(mo.tag_sets(m0.subdomains))) != dig:
                 bad('operand-mutated', "refined(S) changed its operand")
-            if isinstance(arg, np.ndarray) and not np.array_equal(arg, np.array(S if fname == 'array' else S[::-1])):
+            if isinstance(arg, np.ndarray) and fname in ('array', 'int64-unsorted') and not np.array_equal(
+                    arg, np.array(S if fname == 'array' else S[::-1])):
                 bad('argument-mutated', "refined(S) changed the marked index array")
             mo.check_refinement('C13', kind, m0, m1, lc.records, bad, out, marked=S, check_boundaries=False)
             if st.nt >= 2 and len(S) < st.nt:
